@@ -1,5 +1,4 @@
 use std::collections::HashSet;
-use std::u32;
 
 use solang_parser::pt::{Expression, Loc};
 use solang_parser::{self, pt::SourceUnit};
@@ -44,23 +43,21 @@ fn check_if_inputs_are_power_of_two(
 
     //if the first expression is a number literal that is a power of 2
     if let Expression::NumberLiteral(_, val_string, _) = *box_expression {
-        let value = val_string
-            .parse::<u32>()
-            .expect("Could not parse NumberLiteral value from string to u32");
-
-        if (value != 0) && ((value & (value - 1)) == 0) {
-            is_even = true;
+        //a literal that does not fit into 128 bits is not considered
+        if let Ok(value) = val_string.parse::<u128>() {
+            if (value != 0) && ((value & (value - 1)) == 0) {
+                is_even = true;
+            }
         }
     }
 
     //if the first expression is a number literal that is a power of 2
     if let Expression::NumberLiteral(_, val_string, _) = *box_expression_1 {
-        let value = val_string
-            .parse::<u32>()
-            .expect("Could not parse NumberLiteral value from string to u32");
-
-        if (value != 0) && ((value & (value - 1)) == 0) {
-            is_even = true;
+        //a literal that does not fit into 128 bits is not considered
+        if let Ok(value) = val_string.parse::<u128>() {
+            if (value != 0) && ((value & (value - 1)) == 0) {
+                is_even = true;
+            }
         }
     }
 
